@@ -26,7 +26,7 @@ def is_reader_ty(ty):
 def consumers(lib):
     """K: functions with a token-reader parameter that (transitively) advance it"""
     cands = {}
-    for name, t in lib.thir.items():
+    for name, t in lib.ithir.items():
         if any(is_reader_ty(p['ty']) for p in t['params']): cands[name] = t
     direct = set(); calls = {}
     for name, t in cands.items():
@@ -98,7 +98,7 @@ def rule_helpers(F, R):
     """expect consumes one token and succeeds iff it equals the argument; check does the same without consuming"""
     lib = F.lib()
     for fn, adv, nm in ((EXPECT, NEXTS, 'expect'), (CHECK, PEEKS, 'check')):
-        t = lib.thir.get(fn)
+        t = lib.ithir.get(fn)
         ok = False; why = 'not found'
         if t is not None:
             ms = [m for m in walk(t['body']) if m['k'] == 'Match']
@@ -136,7 +136,7 @@ class Walker:
         self.vec_n = 0
 
     def paths(self, fname):
-        t = self.lib.thir[fname]
+        t = self.lib.ithir[fname]
         st = St()
         for p in t['params']:
             if 'pat' in p and p['pat']['k'] == 'Binding':
@@ -482,7 +482,7 @@ class Extractor:
         if key in self.cache: return self.cache[key]
         if key in self.stack: raise Undec('recursion through %s other than via sub/simple' % fname.split('::')[-1])
         self.stack.append(key)
-        t = self.lib.thir[fname]
+        t = self.lib.ithir[fname]
         consts = {}
         extra = [p for p in t['params'] if not is_reader_ty(p['ty'])]
         if len(extra) != len(lits): raise Undec('parse function %s needs %d constant argument(s)' % (fname.split('::')[-1], len(extra)))
@@ -746,7 +746,7 @@ def rule_A3(F, R, ex=None):
     seen = {}
     for fname in sorted(K):
         if fname in (EXPECT, CHECK): continue
-        t = lib.thir[fname]
+        t = lib.ithir[fname]
         extra = [p for p in t['params'] if not is_reader_ty(p['ty'])]
         variants = [()] if not extra else [(True,), (False,)]
         for lits in variants:
